@@ -422,6 +422,9 @@ func (s *Sym) arrayLiteral(al *ssa.Alloc, at ssa.Instruction) *Term {
 			elems[i] = T("const", "0")
 		}
 	}
+	if b, ok := arr.Elem().Underlying().(*types.Basic); !ok || b.Kind() != types.Byte {
+		return &Term{Op: "list", Args: elems}
+	}
 	if n == 0 {
 		return T("cat", "")
 	}
@@ -1301,7 +1304,33 @@ func inlinable(f *ssa.Function) bool {
 	return true
 }
 
+// isDecoder: the function reads through a cryptobyte.String; such functions
+// stay opaque calls (their meaning is given by layout agreement, C04).
+var decoderMemo = map[*ssa.Function]bool{}
+
+func isDecoder(f *ssa.Function) bool {
+	if v, ok := decoderMemo[f]; ok {
+		return v
+	}
+	res := false
+	for _, b := range f.Blocks {
+		for _, in := range b.Instrs {
+			if c, ok := in.(ssa.CallInstruction); ok {
+				n := calleeName(c.Common())
+				if strings.HasPrefix(n, "(*golang.org/x/crypto/cryptobyte.String).Read") {
+					res = true
+				}
+			}
+		}
+	}
+	decoderMemo[f] = res
+	return res
+}
+
 func inlinableShape(f *ssa.Function) bool {
+	if isDecoder(f) {
+		return false
+	}
 	res := f.Signature.Results()
 	if res.Len() == 0 {
 		return false
@@ -1370,6 +1399,9 @@ func (s *Sym) evalMake(v *ssa.MakeSlice) *Term {
 			}
 			continue
 		}
+		if !fillerCallee(calleeName(cc)) {
+			continue
+		}
 		var args []*Term
 		if cc.IsInvoke() {
 			args = append(args, s.Of(cc.Value))
@@ -1390,4 +1422,16 @@ func (s *Sym) evalMake(v *ssa.MakeSlice) *Term {
 		return T("make", "", ln, T("opaque", fmt.Sprintf("%d fillers of %s", len(fillers), v.Name())))
 	}
 	return T("make", "", ln)
+}
+
+// fillerCallee: callees known to fill a byte buffer passed to them. Other
+// calls receiving a fresh buffer are treated as readers of it.
+func fillerCallee(name string) bool {
+	switch name {
+	case "io.ReadFull", "crypto/rand.Read", "(io.Reader).Read", "(*math/big.Int).FillBytes",
+		"(*crypto/cipher.StreamReader).Read", "(crypto/cipher.Stream).XORKeyStream", "encoding/hex.Decode",
+		"encoding/binary.bigEndian.PutUint16", "encoding/binary.bigEndian.PutUint32", "encoding/binary.bigEndian.PutUint64":
+		return true
+	}
+	return false
 }
